@@ -109,7 +109,7 @@ func recC02(c *ctx) {
 		if f == "ph" {
 			o.Hash = crypto.SHA512
 		}
-		sig, err := priv.Sign(bytes.NewReader(z), msg, o)
+		sig, err := priv.Sign(r.Entropy(z), msg, o)
 		if err != nil || len(sig) != 64 {
 			// signing a well-formed request must succeed: logged, and rejected by the specification
 			c.w.Emit(vt.Ev{"op": "signfail", "cfg": c.cfg, "seed": vt.B(seed), "msg": vt.B(msg), "f": f, "ctx": vt.B(ctxb),
@@ -144,7 +144,7 @@ func recC02(c *ctx) {
 
 		// GenerateKey(reader) = NewKeyFromSeed(the 32 bytes read); accessors
 		if i%4 == 0 {
-			gp, gk, gerr := ed25519.GenerateKey(bytes.NewReader(seed))
+			gp, gk, gerr := ed25519.GenerateKey(r.Entropy(seed))
 			okacc := gerr == nil && bytes.Equal(gk, priv) && bytes.Equal(gp, pub) && bytes.Equal(priv.Seed(), seed) &&
 				bytes.Equal(priv.Public().(ed25519.PublicKey), pub) && priv.Equal(gk) && ed25519.PublicKey(pub).Equal(gp) &&
 				bytes.Equal(priv[:32], seed)
@@ -193,7 +193,7 @@ func recC02(c *ctx) {
 			det, err1 := priv.Sign(nil, msg, &o5)
 			z2 := append([]byte(nil), z...)
 			z2[0] ^= 1
-			sig2, err2 := priv.Sign(bytes.NewReader(z2), msg, o)
+			sig2, err2 := priv.Sign(r.Entropy(z2), msg, o)
 			if err1 != nil || err2 != nil {
 				c.w.Emit(vt.Ev{"op": "signfail", "cfg": c.cfg, "seed": vt.B(seed), "error": fmt.Sprint(err1, err2)})
 				continue
